@@ -78,7 +78,8 @@ def check_values (year : Int) (month : PyRes Int) (day hours minutes sec : Num) 
       if ple (ofInt (month_limit year month + 1)) day then .error .valueError
       else .ok (year, month, day, hours, minutes, sec)
 
-/-- The date part of `Epoch._compute_jde(y, m, d)` (Epoch.py:378-411): Meeus 7.1. -/
+/-- The date part of `Epoch._compute_jde(y, m, d)` (Epoch.py:403-417): Meeus 7.1, then the Gregorian
+    correction is taken back for an instant before the reform (1582-10-15 0h = JDE 2299160.5). -/
 def compute_jde (y m : Int) (d : Num) : Num :=
   -- if m <= 2: y -= 1; m += 12
   let (y, m) := if m ≤ 2 then (y - 1, m + 12) else (y, m)
@@ -87,7 +88,9 @@ def compute_jde (y m : Int) (d : Num) : Num :=
   -- b = 0.0; if not Epoch.is_julian(y, m, iint(d)): b = 2.0 - a + iint(a / 4.0)
   let b : Num := if !(is_julian y m (ofInt (pfloor d))) then 2.0 - ofInt a + ofInt (pfloor (ofInt a / 4.0)) else 0.0
   -- jde = (iint(365.25 * (y + 4716.0)) + iint(30.6001 * (m + 1.0)) + d + b - 1524.5)
-  ofInt (pfloor (365.25 * (ofInt y + 4716.0)) + pfloor (30.6001 * (ofInt m + 1.0))) + d + b - 1524.5
+  let jde : Num := ofInt (pfloor (365.25 * (ofInt y + 4716.0)) + pfloor (30.6001 * (ofInt m + 1.0))) + d + b - 1524.5
+  -- if jde < 2299160.5: jde -= b
+  if plt jde 2299160.5 then jde - b else jde
 
 /-- `Epoch.get_date()` without kwargs (Epoch.py:1327-1349). `.error .other` stands for the
     `UnboundLocalError` Python would raise if `e` were outside 4..15. -/
